@@ -281,11 +281,11 @@ pub fn c12(o: &Opts) -> Outcome {
     }
     // many records (more than any per-batch record limit), one and many workers: row r belongs to record r
     {
-        let recs: Vec<Vec<u8>> = (0..2300).map(|i| { let l = 2 + (i * 5 % 17) as usize; (0..l).map(|j| b"ACGT"[(i + j * j + i / 3) % 4]).collect() }).collect();
+        let recs: Vec<Vec<u8>> = (0..25_000).map(|i| { let l = 2 + (i * 5 % 17) as usize; (0..l).map(|j| b"ACGT"[(i + j * j + i / 3) % 4]).collect() }).collect();
         for threads in [1usize, 16] {
             cases += recs.len() as u64;
             if let Some(mut w) = c12_batch(&recs, 2, 8, false, threads) {
-                for kv in w.iter_mut() { if kv.0 == "seq" { kv.1 = "<one of 2300 short records>".into(); } }
+                for kv in w.iter_mut() { if kv.0 == "seq" { kv.1 = "<one of 25000 short records>".into(); } }
                 return Outcome { cases, witness: Some(w) };
             }
         }
